@@ -167,12 +167,58 @@ theorem obs_of_fields (O : Ops μ ρ) (K : Nat) (s t : State μ ρ)
     (cs : Coherent O K s) (ct : Coherent O K t) : ObsEq O K s t :=
   ⟨hf, hp, hns, hw, hwh, getFullF_congr O K s t hf hff hp, cs, ct⟩
 
+/-- the state `randomizeF` leaves when the power is accepted -/
+def randomizedState (O : Ops μ ρ) (K : Nat) (st : State μ ρ) (q : Option (List ρ)) (drawn : μ) (ns : NsArg) :
+    State μ ρ :=
+  { clearTx Cfg.fixed (storeP Cfg.fixed st q) with f := some (O.normalize drawn), ns := some (ns.expand K) }
+
+theorem doRandomizeF_eq (O : Ops μ ρ) (K : Nat) (st : State μ ρ) (drawn : μ) (ns : NsArg) (p : PArg ρ) :
+    doRandomizeF Cfg.fixed O K st drawn ns p =
+      match acceptP O K p with
+      | some q => (randomizedState O K st q drawn ns, .unit)
+      | none => (st, .err .ValueError) := by
+  unfold doRandomizeF
+  simp only [Cfg.fixed, if_true]
+  rw [show (⟨true, true, true, true⟩ : Cfg) = Cfg.fixed from rfl, setP_eq O K st p]
+  cases acceptP O K p <;> rfl
+
+/-- the state `solve` leaves when it is accepted -/
+def solvedState (st : State μ ρ) (q : Option (List ρ)) (sol : Solution μ) : State μ ρ :=
+  { clearRx (clearTx Cfg.fixed (storeP Cfg.fixed st q)) with
+      f := some sol.f, fullF := sol.fullF,
+      w := if sol.filtIsH then none else some sol.filt,
+      wH := if sol.filtIsH then some sol.filt else none,
+      ns := some sol.ns }
+
+theorem doSolve_eq (O : Ops μ ρ) (K : Nat) (st : State μ ρ) (cf : Bool) (ns : NsArg) (p : PArg ρ)
+    (sol : Solution μ) :
+    doSolve Cfg.fixed O K st cf ns p sol =
+      if cf && K != 3 then (st, .err .AssertionError)
+      else match acceptP O K p with
+        | some q => (solvedState st q sol, .unit)
+        | none => (st, .err .ValueError) := by
+  unfold doSolve
+  split
+  · rfl
+  · simp only [Cfg.fixed, if_true]
+    rw [show (⟨true, true, true, true⟩ : Cfg) = Cfg.fixed from rfl, setP_eq O K st p]
+    cases acceptP O K p <;> rfl
+
+/-- states obtained from equivalent states by keeping `_W`/`_W_H` and overwriting the other
+    attributes alike are equivalent -/
+theorem obs_overwrite (O : Ops μ ρ) (K : Nat) (s t s' t' : State μ ρ)
+    (hsw : s'.w = s.w) (hswh : s'.wH = s.wH) (htw : t'.w = t.w) (htwh : t'.wH = t.wH)
+    (hf : s'.f = t'.f) (hff : s'.fullF = t'.fullF) (hp : s'.p = t'.p) (hns : s'.ns = t'.ns)
+    (cs : Coherent O K s') (ct : Coherent O K t') (h : ObsEq O K s t) : ObsEq O K s' t' :=
+  obs_of_fields O K s' t' hf hff hp hns
+    ((getW_congr O s' s hsw hswh).trans (h.gw.trans (getW_congr O t t' htw.symm htwh.symm)))
+    ((getWH_congr O s' s hsw hswh).trans (h.gwh.trans (getWH_congr O t t' htw.symm htwh.symm)))
+    cs ct
+
 theorem storeP_obs (O : Ops μ ρ) (K : Nat) (s t : State μ ρ) (q : Option (List ρ)) (h : ObsEq O K s t) :
     ObsEq O K (storeP Cfg.fixed s q) (storeP Cfg.fixed t q) :=
-  obs_of_fields O K _ _ h.f rfl rfl h.ns
-    ((getW_congr O _ s rfl rfl).trans (h.gw.trans (getW_congr O t _ rfl rfl)))
-    ((getWH_congr O _ s rfl rfl).trans (h.gwh.trans (getWH_congr O t _ rfl rfl)))
-    (storeP_coherent O K s q h.cs) (storeP_coherent O K t q h.ct)
+  obs_overwrite O K s t _ _ rfl rfl rfl rfl h.f rfl rfl h.ns
+    (storeP_coherent O K s q h.cs) (storeP_coherent O K t q h.ct) h
 
 /-- every operation maps observationally equal states to observationally equal states and gives
     the same output on both -/
@@ -184,32 +230,28 @@ theorem step_obs (O : Ops μ ρ) (K : Nat) (s t : State μ ρ) (op : Op μ ρ) (
   cases op with
   | setP v =>
     simp only [step] at cS cT ⊢
-    rw [setP_eq O K s v, setP_eq O K t v] at cS cT ⊢
-    cases acceptP O K v with
+    rw [setP_eq O K s v] at cS ⊢
+    rw [setP_eq O K t v] at cT ⊢
+    generalize acceptP O K v = a at cS cT ⊢
+    cases a with
     | none => exact ⟨h, rfl⟩
     | some q => exact ⟨storeP_obs O K s t q h, rfl⟩
   | randomizeF drawn ns p =>
-    simp only [step, doRandomizeF, Cfg.fixed, if_true] at cS cT ⊢
-    rw [show (⟨true, true, true, true⟩ : Cfg) = Cfg.fixed from rfl] at cS cT ⊢
-    rw [setP_eq O K s p, setP_eq O K t p] at cS cT ⊢
-    cases acceptP O K p with
+    simp only [step] at cS cT ⊢
+    rw [doRandomizeF_eq O K s drawn ns p] at cS ⊢
+    rw [doRandomizeF_eq O K t drawn ns p] at cT ⊢
+    generalize acceptP O K p = a at cS cT ⊢
+    cases a with
     | none => exact ⟨h, rfl⟩
     | some q =>
-      simp only at cS cT ⊢
-      have hq := storeP_obs O K s t q h
-      refine ⟨obs_of_fields O K _ _ rfl rfl hq.p rfl ?_ ?_ cS cT, rfl⟩
-      · exact (getW_congr O _ (storeP Cfg.fixed s q) rfl rfl).trans
-          (hq.gw.trans (getW_congr O (storeP Cfg.fixed t q) _ rfl rfl))
-      · exact (getWH_congr O _ (storeP Cfg.fixed s q) rfl rfl).trans
-          (hq.gwh.trans (getWH_congr O (storeP Cfg.fixed t q) _ rfl rfl))
+      exact ⟨obs_overwrite O K s t (randomizedState O K s q drawn ns) (randomizedState O K t q drawn ns)
+        rfl rfl rfl rfl rfl rfl rfl rfl cS cT h, rfl⟩
   | setPrecoders f fullF p =>
     simp only [step, doSetPrecoders] at cS cT ⊢
     cases f <;> cases fullF <;> cases p <;>
       first
       | exact ⟨h, rfl⟩
-      | (refine ⟨obs_of_fields O K _ _ rfl rfl (by first | rfl | exact h.p) rfl ?_ ?_ cS cT, rfl⟩
-         · exact (getW_congr O _ s rfl rfl).trans (h.gw.trans (getW_congr O t _ rfl rfl))
-         · exact (getWH_congr O _ s rfl rfl).trans (h.gwh.trans (getWH_congr O t _ rfl rfl)))
+      | exact ⟨obs_overwrite O K s t _ _ rfl rfl rfl rfl rfl rfl (by first | rfl | exact h.p) rfl cS cT h, rfl⟩
   | setFilters wH w =>
     simp only [step] at cS cT ⊢
     rcases setFilters_cases s wH w with es | es <;> rcases setFilters_cases t wH w with et | et
@@ -218,26 +260,26 @@ theorem step_obs (O : Ops μ ρ) (K : Nat) (s t : State μ ρ) (op : Op μ ρ) (
       cases wH <;> cases w <;> simp [doSetFilters, Cfg.fixed] at es et
     · exfalso
       cases wH <;> cases w <;> simp [doSetFilters, Cfg.fixed] at es et
-    · rw [es, et] at cS cT ⊢
+    · rw [es] at cS ⊢
+      rw [et] at cT ⊢
       refine ⟨⟨h.f, h.p, h.ns, getW_congr O _ _ rfl rfl, getWH_congr O _ _ rfl rfl, ?_, cS, cT⟩, rfl⟩
-      exact (getFullF_congr O K _ s rfl rfl rfl).trans (h.gff.trans (getFullF_congr O K t _ rfl rfl rfl))
+      exact (getFullF_congr O K { clearRx s with w := w, wH := wH } s rfl rfl rfl).trans
+        (h.gff.trans (getFullF_congr O K t { clearRx t with w := w, wH := wH } rfl rfl rfl))
   | solve cf ns p sol =>
-    simp only [step, doSolve] at cS cT ⊢
-    split
-    · exact ⟨h, rfl⟩
-    · rename_i hk
-      simp only [hk] at cS cT
-      simp only [Cfg.fixed, if_true] at cS cT ⊢
-      rw [show (⟨true, true, true, true⟩ : Cfg) = Cfg.fixed from rfl] at cS cT ⊢
-      rw [setP_eq O K s p, setP_eq O K t p] at cS cT ⊢
-      cases acceptP O K p with
+    simp only [step] at cS cT ⊢
+    rw [doSolve_eq O K s cf ns p sol] at cS ⊢
+    rw [doSolve_eq O K t cf ns p sol] at cT ⊢
+    generalize acceptP O K p = a at cS cT ⊢
+    by_cases hk : (cf && K != 3) = true
+    · simp only [hk, if_true]; exact ⟨h, trivial⟩
+    · simp only [hk, if_false] at cS cT ⊢
+      cases a with
       | none => exact ⟨h, rfl⟩
       | some q =>
-        simp only at cS cT ⊢
-        exact ⟨obs_of_fields O K _ _ rfl rfl rfl rfl (getW_congr O _ _ rfl rfl) (getWH_congr O _ _ rfl rfl) cS cT, rfl⟩
+        exact ⟨obs_of_fields O K (solvedState s q sol) (solvedState t q sol) rfl rfl rfl rfl
+          (getW_congr O _ _ rfl rfl) (getWH_congr O _ _ rfl rfl) cS cT, rfl⟩
   | clear =>
-    simp only [step] at cS cT ⊢
-    exact ⟨obs_of_fields O K _ _ rfl rfl rfl rfl (getW_congr O _ _ rfl rfl) (getWH_congr O _ _ rfl rfl) cS cT, rfl⟩
+    refine ⟨obs_of_fields O K _ _ rfl rfl rfl rfl (getW_congr O _ _ rfl rfl) (getWH_congr O _ _ rfl rfl) cS cT, rfl⟩
   | setInit a => exact ⟨h, rfl⟩
   | query => exact ⟨h, rfl⟩
   | fork => exact ⟨h, rfl⟩
